@@ -20,3 +20,6 @@ open Gossamer.C35
 #print axioms Gossamer.Monitor.modeIn_lock
 #print axioms C35_triecache_refines
 #print axioms encBytes_injective
+#print axioms C35_limiter_seq
+#print axioms C35_limiter_counts_all
+#print axioms C35_limiter_unlocked_rejected
